@@ -8,7 +8,7 @@ export const PROVENANCE = ['vueNamed', 'vueNamedInner', 'vueAliased', 'nsMember'
 export const DECLS = ['const', 'let', 'var', 'exportConst', 'exportDefault', 'assignment', 'nestedInCall', 'objectProp'];
 // user-supplied option keys: how each of props / emits / name is written (or not)
 const KEY_FORMS = ['absent', 'kv', 'strKey', 'shorthand', 'computedLit', 'viaSpread'];
-export const SHAPES = ['none', 'objLiteral', 'objLiteralTwoSpreads', 'identOptions', 'callOptions', 'spreadArgsAll', 'spreadArgsRest', 'spreadArgsSetupOnly', 'spreadHeadThenOpts', 'objectFirstArg', 'namedFnExpr', 'noArgs', 'identOptionsThirdArg', 'objLiteralThirdArg', 'setupByRef', 'dotCall', 'dotApply'];
+export const SHAPES = ['none', 'objLiteral', 'objLiteralTwoSpreads', 'identOptions', 'callOptions', 'spreadArgsAll', 'spreadArgsRest', 'spreadArgsSetupOnly', 'spreadHeadThenOpts', 'objectFirstArg', 'namedFnExpr', 'noArgs', 'identOptionsThirdArg', 'objLiteralThirdArg', 'setupByRef', 'dotCall', 'dotApply', 'objectFirstArgSpread'];
 
 const USER = { props: 'UP', emits: 'UE', name: '"UserName"' };
 
@@ -87,6 +87,8 @@ function buildCase(rng, prov, decl, shape, forms, resolveType) {
     // defineComponent.call / .apply are member calls, not calls of defineComponent
     case 'dotCall': calleeSuffix = '.call'; args = `null, ${setup}, { ${[...members, ...other].join(', ')} }`; augmentable = false; for (const k of Object.keys(supplied)) if (forms[k] === 'viaSpread') delete supplied[k]; break;
     case 'dotApply': calleeSuffix = '.apply'; args = `null, [${setup}, { ${[...members, ...other].join(', ')} }]`; augmentable = false; for (const k of Object.keys(supplied)) if (forms[k] === 'viaSpread') delete supplied[k]; break;
+    // the options-API form whose name arrives through a spread
+    case 'objectFirstArgSpread': L.push('const BaseOpts = { name: "ObjForm", props: UP };'); args = `{ ...BaseOpts, setup() { return () => null; } }`; augmentable = false; for (const k of Object.keys(supplied)) delete supplied[k]; break;
     // a call without arguments has no options position to augment
     case 'noArgs': args = ''; augmentable = false; for (const k of Object.keys(supplied)) delete supplied[k]; break;
     case 'objectFirstArg': args = `{ name: "ObjForm", props: UP, setup() { return () => null; } }`; augmentable = false; for (const k of Object.keys(supplied)) delete supplied[k]; break;
@@ -136,7 +138,8 @@ export function* generate({ tier, seed }) {
     return {
       gid: `C20-${n++}`, src: c.src, syntax: 'tsx', spec: c.spec,
       feature: `${prov}|${decl}|${shape}|rt=${rt}|${['props', 'emits', 'name'].map((k) => forms[k][0] + forms[k].slice(-2)).join(',')}`,
-      variants: [{ vid: 'v0', options: { resolveType: rt } }],
+      // (resolveType is off by default: half of the off-cases leave it out of the configuration)
+      variants: [{ vid: 'v0', options: rt || rng.bool() ? { resolveType: rt } : (rng.bool() ? {} : { optimize: true }) }],
     };
   };
   const randForms = () => ({ props: rng.pick(KEY_FORMS), emits: rng.pick(KEY_FORMS), name: rng.pick(KEY_FORMS) });
@@ -189,7 +192,7 @@ export async function check(group, records) {
       const calls = rt.log.filter((e) => e.k === 'defineComponent');
       if (calls.length !== 1) return [inconclusive({ ...base, reason: `expected 1 vue defineComponent call, saw ${calls.length}` })];
       const c = calls[0];
-      if (spec.shape === 'objectFirstArg') {
+      if (spec.shape === 'objectFirstArg' || spec.shape === 'objectFirstArgSpread') {
         const res = canonOpt(c.res);
         if (res.name !== 'ObjForm' || JSON.stringify(res.props) !== JSON.stringify(USERVAL.props)) return [violated({ ...base, oracle: 'object-form component unchanged', sig: 'C20/object-form-changed', detail: short(res) })];
         return [held({ ...base, events: { defineComponent: 1, argc: c.argc } })];
@@ -220,7 +223,7 @@ export async function check(group, records) {
     // non-vue callee: the call must be untouched (same argument count, no injected keys)
     const calls = rt.log.filter((e) => (e.k === 'call' && (e.id === 'recordDC' || e.id === 'other.defineComponent')) || e.k === 'defineAsyncComponent');
     if (calls.length !== 1) return [inconclusive({ ...base, reason: `expected 1 recorded call, saw ${calls.length}` })];
-    const expectedArgc = { dotCall: 2, dotApply: 2, setupByRef: /setupRef, \{/.test(group.cases.v0.src) ? 2 : 1, noArgs: 0, identOptionsThirdArg: 3, objLiteralThirdArg: 3, none: 1, objLiteral: 2, objLiteralTwoSpreads: 2, identOptions: 2, callOptions: 2, spreadArgsAll: 2, spreadArgsRest: 2, spreadArgsSetupOnly: 1, spreadHeadThenOpts: 2, objectFirstArg: 1, namedFnExpr: /, \{/.test(group.cases.v0.src.split(`function ${spec.fnName}(`)[1] || '') ? 2 : 1 }[spec.shape];
+    const expectedArgc = { objectFirstArgSpread: 1, dotCall: 2, dotApply: 2, setupByRef: /setupRef, \{/.test(group.cases.v0.src) ? 2 : 1, noArgs: 0, identOptionsThirdArg: 3, objLiteralThirdArg: 3, none: 1, objLiteral: 2, objLiteralTwoSpreads: 2, identOptions: 2, callOptions: 2, spreadArgsAll: 2, spreadArgsRest: 2, spreadArgsSetupOnly: 1, spreadHeadThenOpts: 2, objectFirstArg: 1, namedFnExpr: /, \{/.test(group.cases.v0.src.split(`function ${spec.fnName}(`)[1] || '') ? 2 : 1 }[spec.shape];
     const argc = calls[0].id === 'recordDC' ? undefined : calls[0].argc;
     // recordDC("tag", argc, a, b): look at the final text instead of the values for the injected keys
     const finalCall = rec.final;
